@@ -64,6 +64,7 @@ def kernel_orders(chk, it, shape):
     orders = list(itertools.permutations(range(n)))
     # ---- create_next_state commutes
     G.reset()
+    G.atomic_domains = {'single:Transaction'}
     st = State()
     state, sterms = B.sym_state(st.pc)
     B.install_coin_invariants(it, B.cdh_covhash)
@@ -122,6 +123,7 @@ def kernel_orders(chk, it, shape):
     # ---- load_relevant_coins / load_stake_info give the same set-valued result in every order
     for kname in ('load_relevant_coins', 'load_stake_info'):
         G.reset()
+        G.atomic_domains = {'single:Transaction'}
         st = State()
         state, sterms = B.sym_state(st.pc)
         B.install_history_invariant(it, sterms['height'])
